@@ -105,15 +105,17 @@ type Cmd struct {
 
 // Prog - a complete program definition.
 type Prog struct {
-	Mode        int      `json:"mode"`
-	Unknown     int      `json:"unknown"`
-	ReqOrder    bool     `json:"reqorder,omitempty"`
-	MapLower    bool     `json:"maplower,omitempty"`
-	Help        string   `json:"help,omitempty"`
-	HelpAliases []string `json:"helpaliases,omitempty"` // aliases of the help flag (modifiers given to HelpCommand)
-	SelfName    string   `json:"selfname,omitempty"`
-	SelfDesc    string   `json:"selfdesc,omitempty"`
-	LateMode    bool     `json:"latemode,omitempty"` // SetMode is called after the commands are defined
+	Mode     int  `json:"mode"`
+	Unknown  int  `json:"unknown"`
+	ReqOrder bool `json:"reqorder,omitempty"`
+	MapLower bool `json:"maplower,omitempty"`
+	// LateMapLower - SetMapKeysToLower is called after the commands were defined (it is a setting of the program, not of a level)
+	LateMapLower bool     `json:"latemaplower,omitempty"`
+	Help         string   `json:"help,omitempty"`
+	HelpAliases  []string `json:"helpaliases,omitempty"` // aliases of the help flag (modifiers given to HelpCommand)
+	SelfName     string   `json:"selfname,omitempty"`
+	SelfDesc     string   `json:"selfdesc,omitempty"`
+	LateMode     bool     `json:"latemode,omitempty"` // SetMode is called after the commands are defined
 	// EarlyMode - 1+mode set before the commands are defined when LateMode sets the final one (0 = no early call)
 	EarlyMode int `json:"earlymode,omitempty"`
 	// LateUnknown / LateReqOrder - SetUnknownMode / SetRequireOrder are called on the program after its commands were
@@ -473,10 +475,13 @@ func Build(p *Prog) *Built {
 	if p.ReqOrder && !p.LateReqOrder {
 		opt.SetRequireOrder()
 	}
-	if p.MapLower {
+	if p.MapLower && !p.LateMapLower {
 		opt.SetMapKeysToLower()
 	}
 	b.defineLevel(opt, p.Root, "")
+	if p.MapLower && p.LateMapLower {
+		opt.SetMapKeysToLower()
+	}
 	if p.LateMode {
 		opt.SetMode(getoptions.Mode(p.Mode))
 	}
